@@ -21,7 +21,12 @@ RULE = ("one execution = f_and or f_or over n spy inputs with one outcome assign
 REQUIRED = ["line_events", "lock_acquisitions"]
 
 VALUES = {"T1": 1, "Ts": "x", "Tl": [0], "F0": 0, "Fs": "", "Fn": None, "Fl": []}
-OUTCOMES = ["T1", "Ts", "F0", "Fn", "E", "C", "N"]  # N = never finishes
+OUTCOMES = ["T1", "Ts", "F0", "Fn", "E", "X", "K", "C", "N"]  # N = never finishes; X = BaseException-only exception;
+#                                                              K = failed with a CancelledError instance (not cancelled)
+
+
+class UserBase(BaseException):
+    pass
 
 
 def cases(tier, seed):
@@ -53,14 +58,14 @@ def fold(op, assign, order):
             continue
         remaining.discard(i)
         truthy = code.startswith("T")
-        falsy = code.startswith("F") or code in ("E", "C")
+        falsy = code.startswith("F") or code in ("E", "C", "X", "K")
         last = not remaining
         if op == "or":
             decide = truthy or last
         else:
             decide = falsy or last
         if decide:
-            if code == "E":
+            if code in ("E", "X", "K"):
                 return ("exc", i), set(remaining)
             if code == "C":
                 return ("cancelled",), set(remaining)
@@ -77,8 +82,9 @@ def complete(f, code, i, excs):
     if f.done():
         return False
     try:
-        if code == "E":
-            e = excs.setdefault(i, UserErrorA("in%d" % i))
+        if code in ("E", "X", "K"):
+            cls = {"E": UserErrorA, "X": UserBase, "K": cf.CancelledError}[code]
+            e = excs.setdefault(i, cls("in%d" % i))
             f.set_exception(e)
         elif code == "C":
             f.cancel()
@@ -130,24 +136,43 @@ def run_order(case, res):
             combos.append((assign, order))
     if case["sample"] and len(combos) > case["sample"]:
         combos = rng.sample(combos, case["sample"])
-    for assign, order in combos:
+    for ci, (assign, order) in enumerate(combos):
+        # how many inputs (a prefix of the completion order) are already finished when f_and/f_or is called
+        pre = (0, 1, n)[ci % 3] if n > 1 else 0
         begin("rt")
         ctx = Ctx()
         try:
             ins = [SpyFuture("in%d" % i) for i in range(n)]
-            out = mk(op, ins)
             excs = {}
-            if n == 1 and out is not ins[0]:
-                res.violation("single-input-not-returned/%s" % op, "f_%s(f) did not return f itself" % op)
-            for i in order:
+            for i in order[:pre]:
                 if assign[i] != "N":
                     complete(ins[i], assign[i], i, excs)
+            try:
+                out = mk(op, ins)
+            except BaseException as e:
+                res.violation("constructor-raised/%s/%s" % (op, type(e).__name__), "f_%s with %d already finished inputs (%s) raised %r" % (op, pre, assign, e))
+                res.execs += 1
+                continue
+            if n == 1 and out is not ins[0]:
+                res.violation("single-input-not-returned/%s" % op, "f_%s(f) did not return f itself" % op)
+            escaped = None
+            for i in order[pre:]:
+                if assign[i] != "N":
+                    try:
+                        complete(ins[i], assign[i], i, excs)
+                    except BaseException as e:
+                        escaped = e
+            if escaped is not None:
+                res.violation("callback-raised-into-completer/%s" % type(escaped).__name__,
+                              "f_%s %s: completing an input let %r escape from the combinator's callback" % (op, assign, escaped))
             res.execs += 1
-            label = "f_%s %s order=%s" % (op, assign, order)
+            label = "f_%s %s order=%s (%d finished before the call)" % (op, assign, order, pre)
+            # inputs already finished at the call are seen in argument order
+            order = tuple(sorted(order[:pre])) + tuple(order[pre:])
             if n > 1:
                 check(res, label, op, out, ins, assign, [order], excs)
             if fold(op, assign, order)[0][0] != "pending":
-                res.key(op, assign, order)
+                res.key(op, assign, order, pre)
             res.sample({"op": op, "inputs": assign, "completion_order": order, "output": outcome_repr(outcome(out)),
                         "cancels_received": [len(f.cancel_calls) for f in ins]}, limit=1)
         finally:
